@@ -28,7 +28,7 @@ enum Outcome {
 };
 const char *outcome_name(int o);
 
-enum Seam { S_ANY, S_FOPEN, S_FREAD, S_FWRITE, S_FCLOSE, S_FTRUNC, S_STAT, S_ACCESS, S_FORK, S_PWRITE, S_PREAD, S_POLL, S_WAIT, S_TTYW, S_N };
+enum Seam { S_ANY, S_FOPEN, S_FREAD, S_FWRITE, S_FCLOSE, S_FTRUNC, S_STAT, S_ACCESS, S_FORK, S_PWRITE, S_PREAD, S_POLL, S_WAIT, S_TTYW, S_CPOLL, S_N };
 const char *seam_name(int s);
 int seam_id(const std::string &s);
 
